@@ -13,7 +13,7 @@ Print Assumptions C12_comment_closed.
 
 (* line-comment generators: every output line starts with the prefix, so no text can leave the comment *)
 Theorem C12_line_comment : forall prefix content,
-  comment_filter None None prefix content = (prefix ++ join (String nl prefix) (split_on nl content))%string.
+  comment_filter None None prefix content = (prefix ++ join (String nl prefix) (map fix_line (split_on nl (flatten content))))%string.
 Proof. exact line_comment_prefixed. Qed.
 Print Assumptions C12_line_comment.
 
@@ -22,7 +22,7 @@ Theorem C12_deprecated_literal : forall m, lit_ok false (escape_msg m) = true.
 Proof. exact deprecated_literal_well_formed. Qed.
 Print Assumptions C12_deprecated_literal.
 
-Theorem C12_escape_is_per_character : forall m, escape_msg m = esc_map m.
+Theorem C12_escape_is_per_character : forall m, escape_msg m = esc_map (flatten m).
 Proof. exact escape_msg_is_esc_map. Qed.
 Print Assumptions C12_escape_is_per_character.
 
@@ -42,9 +42,9 @@ Print Assumptions C12_java_comment_closed_after_unicode_translation.
 
 (* without that repair the statement is false (the defect that was repaired in /repo): \u002a/ closes the comment, C:\users does not compile *)
 Theorem C12_java_unrepaired_refuted :
-  (exists t, jtrans (comment_filter (Some BLOCK_START) (Some BLOCK_END) BLOCK_PREFIX "x \u002a/ int evil; /\u002a") = Some t /\
+  (exists t, jtrans (comment_filter0 (Some BLOCK_START) (Some BLOCK_END) BLOCK_PREFIX "x \u002a/ int evil; /\u002a") = Some t /\
              t = ("/**" ++ String nl " * x */ int evil; /*" ++ String nl " */")%string) /\
-  jtrans (comment_filter (Some BLOCK_START) (Some BLOCK_END) BLOCK_PREFIX "see C:\users\me") = None.
+  jtrans (comment_filter0 (Some BLOCK_START) (Some BLOCK_END) BLOCK_PREFIX "see C:\users\me") = None.
 Proof. exact java_doc_unrepaired_refuted. Qed.
 Print Assumptions C12_java_unrepaired_refuted.
 
@@ -58,9 +58,26 @@ Proof. exact line_doc_safe. Qed.
 Print Assumptions C12_line_comment_never_splices.
 
 Theorem C12_line_comment_unrepaired_refuted :
-  exists l, In l (split_on nl (comment_filter None None "/// " "path C:\")) /\ dangling l = true.
+  exists l, In l (split_on nl (comment_filter0 None None "/// " "path C:\")) /\ dangling l = true.
 Proof. exact line_doc_unrepaired_refuted. Qed.
 Print Assumptions C12_line_comment_unrepaired_refuted.
+
+(* Jinja's indent filter breaks lines with str.splitlines(): the generated comment contains no (single-byte) character that splitlines treats as
+   a line break besides the newline, so no text of an indented '///' comment can start a line of its own without the prefix *)
+Theorem C12_no_other_line_separator_survives : forall start end_ prefix content,
+  no_sep prefix = true -> (match start with Some s => no_sep s | None => true end) = true -> (match end_ with Some e => no_sep e | None => true end) = true ->
+  no_sep (comment_filter start end_ prefix content) = true.
+Proof. exact comment_filter_no_sep. Qed.
+Print Assumptions C12_no_other_line_separator_survives.
+
+Theorem C12_separator_unrepaired_refuted : no_sep (comment_filter0 None None "/// " ("first " ++ String "012" " int injected;")) = false.
+Proof. exact comment_filter0_sep_refuted. Qed.
+Print Assumptions C12_separator_unrepaired_refuted.
+
+Theorem C12_deprecated_literal_has_no_line_separator : forall m,
+  all_chars (fun c => negb (is_sep c) && negb (Ascii.eqb c nl)) (escape_msg m) = true.
+Proof. exact escape_msg_no_sep. Qed.
+Print Assumptions C12_deprecated_literal_has_no_line_separator.
 
 (* the repair changes nothing for lines that do not end in a backslash *)
 Theorem C12_fix_line_identity : forall s, dangling s = false -> fix_line s = s.
